@@ -79,14 +79,9 @@ impl Database for SledDB {
     }
 
     fn load(config: Self::Config) -> PmtreeResult<Self> {
-        let db = match config.open() {
-            Ok(db) => db,
-            Err(e) => {
-                return Err(PmtreeErrorKind::DatabaseError(
-                    DatabaseErrorKind::CustomError(format!("Cannot load database: {e}")),
-                ))
-            }
-        };
+        // the lock of a just-dropped instance may still be held for a moment: retry like `new`
+        // does, otherwise the caller falls back to re-creating (and wiping) an existing tree
+        let db = Self::new_with_tries(config.clone(), 0)?.0;
 
         if !db.was_recovered() {
             return Err(PmtreeErrorKind::DatabaseError(
